@@ -51,3 +51,69 @@ pub proof fn lemma_mb_step(r: u64, b: u8, i: nat)
     assert(t == lo * p && (r ^ t) == r + t && (r ^ t) < (p << 7u64) && (p << 7u64) == (1u64 << ((sh + 7) as u64))) by (bit_vector)
         requires sh <= 56, lo < 128, t == lo << sh, p == 1u64 << sh, r < p;
 }
+
+// ---- 3.1 Block Header (the bytes after the size byte, CRC32 excluded) ---------------------------
+pub struct FilterS { pub id: nat, pub props: Seq<u8> }
+pub struct BlockHdrS { pub packed: Option<nat>, pub unpacked: Option<nat>, pub filters: Seq<FilterS> }
+
+/// filter flags: id (multibyte), size of properties (multibyte), properties.  Only LZMA2 (0x21) is supported.
+pub open spec fn sp_filters(s: Seq<u8>, k: nat, header_size: nat) -> Option<(Seq<FilterS>, nat)>
+    decreases k
+{
+    if k == 0 { Some((Seq::<FilterS>::empty(), 0nat)) }
+    else {
+        match sp_multibyte(s, 0, 0) {
+            None => None,
+            Some((id, n1)) => {
+                if id != 0x21 { None } else {
+                match sp_multibyte(s.skip(n1 as int), 0, 0) {
+                    None => None,
+                    Some((psz, n2)) => {
+                        if psz > header_size || s.len() < n1 + n2 + psz { None }
+                        else {
+                            let f = FilterS { id: id, props: s.subrange((n1 + n2) as int, (n1 + n2 + psz) as int) };
+                            match sp_filters(s.skip((n1 + n2 + psz) as int), (k - 1) as nat, header_size) {
+                                None => None,
+                                Some((fs, used)) => Some((seq![f] + fs, n1 + n2 + psz + used)),
+                            }
+                        }
+                    }
+                }}
+            }
+        }
+    }
+}
+
+pub open spec fn all_zero(s: Seq<u8>) -> bool { forall|i: int| 0 <= i < s.len() ==> s[i] == 0u8 }
+
+/// `s` = the whole header after the size byte (header_size = real size - 5 bytes).
+pub open spec fn sp_block_header(s: Seq<u8>, header_size: nat) -> Option<BlockHdrS> {
+    if s.len() < 1 { None }
+    else {
+        let flags = s[0];
+        if (flags / 4) % 16 != 0 { None }     // reserved bits 2-5
+        else {
+            let nf: nat = (flags % 4) as nat + 1;
+            let p1 = if (flags / 64) % 2 == 1 { sp_multibyte(s.skip(1), 0, 0) } else { Some((0nat, 0nat)) };
+            match p1 {
+                None => None,
+                Some((pk, n1)) => {
+                    let p2 = if flags >= 128 { sp_multibyte(s.skip(1 + n1 as int), 0, 0) } else { Some((0nat, 0nat)) };
+                    match p2 {
+                        None => None,
+                        Some((up, n2)) => match sp_filters(s.skip((1 + n1 + n2) as int), nf, header_size) {
+                            None => None,
+                            Some((fs, used)) => {
+                                if !all_zero(s.skip((1 + n1 + n2 + used) as int)) { None }
+                                else { Some(BlockHdrS {
+                                    packed: if (flags / 64) % 2 == 1 { Some(pk) } else { None },
+                                    unpacked: if flags >= 128 { Some(up) } else { None },
+                                    filters: fs }) }
+                            }
+                        },
+                    }
+                }
+            }
+        }
+    }
+}
